@@ -67,10 +67,10 @@ Definition x_flat_all (cs : list chunk) : list doc := flat_map flat_docs cs.
 Definition x_decode_ftdc := decode_ftdc inflate_flag (Some delta_cap).
 Definition x_c07_run := c07_run deflate_flag inflate_flag (Some delta_cap).
 
-(* byte-level reader; the third component tells that the model declined to expand a
-   chunk larger than its evaluation cap (the case is then skipped by the driver) *)
+(* byte-level reader with the evaluation cap; the third component tells that the
+   model declined to expand a chunk larger than that cap (the driver skips the case) *)
 Definition x_read_stream (bs : bytes) : list chunk * bool * bool :=
   let '(docs, fe) := read_docs bs in
-  let '(cs, ce) := read_chunks_gen inflate_flag (Some delta_cap) None docs in
+  let '(cs, ce) := read_chunks_b inflate_flag reader_limit (Some delta_cap) None docs in
   (cs, match fe, ce with None, None => false | _, _ => true end,
    match ce with Some EHuge => true | _ => false end).
